@@ -1,6 +1,7 @@
 //! C18 — the metadata accessors return the tags the file encodes.
 
 use crate::model::*;
+use crate::model::RAW_ITEM;
 use crate::panicmon;
 use crate::prng::{hash_str, Rng};
 use crate::readcheck::open;
@@ -37,7 +38,13 @@ fn gen_text(rng: &mut Rng, len_class: u64) -> String {
 }
 
 fn unknown_item(rng: &mut Rng) -> ([u8; 4], u32, Vec<u8>) {
-    let typ = *rng.pick(&[*b"\xa9too", *b"\xa9alb", *b"trkn", *b"----", *b"cpil", *b"\xa9gen", *b"tvsh", *b"xxxx"]);
+    let typ = *rng.pick(&[*b"\xa9too", *b"\xa9alb", *b"trkn", *b"----", *b"cpil", *b"\xa9gen", *b"tvsh", *b"xxxx", *b"free"]);
+    // one in three unrelated items has arbitrary nested content instead of a `data` box:
+    // nothing at all (a header-only item), or raw bytes
+    if rng.chance(1, 3) {
+        let n = *rng.pick(&[0usize, 0, 1, 7, 8, 9, 40]);
+        return (typ, crate::model::RAW_ITEM, rng.bytes(n));
+    }
     // arbitrary data type: unrelated items are never decoded
     let dt = *rng.pick(&[0u32, 1, 13, 14, 21, 2, 0xFFFF_FFFF]);
     let n = rng.usize_below(30);
@@ -63,12 +70,23 @@ pub fn gen_tags_with(rng: &mut Rng, present: u32, handler_mdir: bool, place: u8)
             3 => rng.below(3000) as u32,
             _ => rng.next_u32(),
         };
-        if rng.bool() {
-            items.push((*b"\xa9day", 1, y.to_string().into_bytes()));
-        } else {
-            items.push((*b"\xa9day", 0, y.to_be_bytes().to_vec()));
+        match rng.below(8) {
+            0..=2 => {
+                items.push((*b"\xa9day", 1, y.to_string().into_bytes()));
+                want.year = Some(y);
+            }
+            3..=5 => {
+                items.push((*b"\xa9day", 0, y.to_be_bytes().to_vec()));
+                want.year = Some(y);
+            }
+            _ => {
+                // text that is no decimal number encodes no year: the accessor reports absence
+                // (empty payloads are part of the quantified space)
+                let t: &[u8] = *rng.pick(&[&b""[..], b"", b"abc", b"20x8", b"2008-05-01", b" ", b"-1", b"99999999999"]);
+                items.push((*b"\xa9day", 1, t.to_vec()));
+                want.year = None;
+            }
         }
-        want.year = Some(y);
     }
     if present & 4 != 0 {
         let n = *rng.pick(&[0usize, 1, 255, 65536, 1000, 17]);
@@ -148,7 +166,7 @@ fn eval(id: &str, m: &Movie, want: &WantTags, shape: &str, rep: &mut Report, arg
 pub fn run(args: &Args) -> i32 {
     let mut rep = Report::new(args, true);
     let mut idx = 0u64;
-    let reps = args.scale(6, 60);
+    let reps = args.scale(12, 120);
     for present in 0..16u32 {
         for mdir in [true, false] {
             for place in 0..4u8 {
@@ -163,9 +181,27 @@ pub fn run(args: &Args) -> i32 {
                     }
                     let mut rng = Rng::derive(args.seed, 0xC18, idx);
                     let mut m = gen_movie(&mut rng, 2, 4, 16);
-                    let (tags, want) = gen_tags_with(&mut rng, present, mdir, place);
-                    let shape = format!("p{:04b} mdir{} place{} full{} hdlr1st{} extra{} enc{}", present, mdir as u8, place, tags.meta_fullbox as u8, tags.hdlr_first as u8,
-                        tags.items.len() as u32 - present.count_ones(), tags.items.iter().find(|i| &i.0 == b"\xa9day").map(|i| i.1).unwrap_or(9));
+                    let (mut tags, want) = gen_tags_with(&mut rng, present, mdir, place);
+                    // directed dimension: an unrelated item with no content at all (a header-only,
+                    // 8-byte box), with raw bytes, or with a foreign data box, placed first / in the
+                    // middle / last - cycled deterministically so that every tag subset meets each
+                    let lead: Option<(u32, Vec<u8>)> = match r % 4 {
+                        1 => Some((RAW_ITEM, vec![])),
+                        2 => Some((RAW_ITEM, vec![0x11; 5])),
+                        3 => Some((14, vec![1, 2, 3])),
+                        _ => None,
+                    };
+                    if let Some((dt, payload)) = lead {
+                        let pos = match (r / 4) % 3 {
+                            0 => 0,
+                            1 => tags.items.len() / 2,
+                            _ => tags.items.len(),
+                        };
+                        tags.items.insert(pos, (*b"zzzz", dt, payload));
+                    }
+                    let raw = tags.items.iter().filter(|i| i.1 == crate::model::RAW_ITEM).map(|i| if i.2.is_empty() { 2 } else { 1 }).max().unwrap_or(0);
+                    let shape = format!("p{:04b} mdir{} place{} full{} hdlr1st{} extra{} raw{} enc{}{}", present, mdir as u8, place, tags.meta_fullbox as u8, tags.hdlr_first as u8,
+                        tags.items.len() as u32 - present.count_ones(), raw, tags.items.iter().find(|i| &i.0 == b"\xa9day").map(|i| i.1).unwrap_or(9), if present & 2 != 0 && want.year.is_none() && mdir && place == 0 { "nonnum" } else { "" });
                     m.tags = Some(tags);
                     eval(&id, &m, &want, &shape, &mut rep, args);
                     if rep.too_many_fails() {
